@@ -230,7 +230,9 @@ void BpEndecodeArray(struct BpArrayDescriptor *descriptor,
 
     // Skip redundant bits if decoding.
     if (descriptor->extensible && (!ctx->is_encode)) {
-        int ito = i + (((int)ahead) * descriptor->cap);
+        // Number of bits each element occupied in the stream.
+        int element_nbits_processed = (ctx->i - i - 16) / descriptor->cap;
+        int ito = i + 16 + (((int)ahead) * element_nbits_processed);
         if (ito >= ctx->i) {
             ctx->i = ito;
         }
